@@ -78,6 +78,8 @@ func errClass(err error) string {
 		return "multiptr"
 	case strings.Contains(s, "转化字段类型不匹配"):
 		return "convtype"
+	case strings.Contains(s, "不能为 nil"): // errNilPointer (the nil-argument fix)
+		return "nil"
 	case s == "c20-user":
 		return "user"
 	}
@@ -192,6 +194,28 @@ func (o *Out) Pure(mk Exec) {
 	}
 	src, run := mk()
 	o.b.WriteString(execOnce(src, run, nil))
+}
+
+// PureG runs one package-level copier.CopyTo call with arbitrary arguments (nil interface,
+// typed nil pointers, non-pointers ...): only the outcome class is observed.
+func (o *Out) PureG(run func() error) {
+	o.b.WriteString(" | ")
+	if o.alias {
+		o.b.WriteString("-")
+		return
+	}
+	st := func() (st string) {
+		defer func() {
+			if r := recover(); r != nil {
+				st = "panic"
+			}
+		}()
+		if err := run(); err != nil {
+			return "err:" + errClass(err)
+		}
+		return "ok"
+	}()
+	o.b.WriteString(st + " -")
 }
 
 // ---------------------------------------------------------------- aliasing observables
